@@ -38,12 +38,13 @@ def cpp_specs(ctx, files_quick=7, per_file=80, rand_files_quick=2, rand_per_file
         chunks = list(C.chunks(flat, per_file))
     for i, ch in enumerate(chunks):
         specs.append({tag: True, 'kind': 'seq', 'seqs': ch, 'wrap': False, 'seed': ctx.seed * 1000 + i,
-                      'O1': (not ctx.quick) and i % 12 == 5})
+                      'O1': (not ctx.quick) and i % 12 == 5, 'split': i % 3 == 1})
     # wrapped variants: few sequences, many wrapper types
     nwrap = ctx.pick(1, 24)
     for i in range(nwrap):
         seqs = [[rng.choice(S.PALETTE_TAGS) for _ in range(rng.randint(1, 3))] for _ in range(14)]
-        specs.append({tag: True, 'kind': 'seq', 'seqs': seqs, 'wrap': True, 'seed': ctx.seed * 1000 + 300 + i})
+        specs.append({tag: True, 'kind': 'seq', 'seqs': seqs, 'wrap': True, 'seed': ctx.seed * 1000 + 300 + i,
+                      'split': i % 2 == 0})
     # canary: member sequences that reach the recorded known findings of the C++ back-ends, so that a
     # KNOWN-FINDING line is printed on every run while the defect persists (and none once it is repaired)
     specs.append({tag: True, 'kind': 'seq', 'wrap': True, 'seed': ctx.seed * 1000 + 999, 'canary': True,
@@ -68,10 +69,17 @@ def cpp_specs(ctx, files_quick=7, per_file=80, rand_files_quick=2, rand_per_file
                            ['Un4*', 'u8'], ['u8', 'Un8*', 'u16'], ['Un12*'], ['u8', 'FxO*', 'u8'], ['Un4*', 'FxO*', 'u8<>'],
                            # ten levels of nesting (rendering indentation, recursion in codecs)
                            ['u8', 'Deep10'], ['Deep10<>', 'u8']]})
+    # every scalar type in every member form: present/absent optionals between other members, arrays, plain fields
+    # (codec tables have one row per scalar type)
+    sc = []
+    for t in S.SCALARS:
+        sc += [['u8', t + '*', 'u8'], [t + '*', 'u32'], ['u8<>', t + '*', t], [t + '[2]', 'u8', t + '<>', 'u8', t + '<3>']]
+    for i, ch in enumerate(C.chunks(sc, 20)):
+        specs.append({tag: True, 'kind': 'seq', 'wrap': i == 0, 'seed': ctx.seed * 1000 + 950 + i, 'seqs': ch})
     nrf = ctx.pick(rand_files_quick, rand_files_thorough)
     for i in range(nrf):
         seeds = [ctx.seed * 100000 + 7000 + i * rand_per_file + k for k in range(rand_per_file)]
-        specs.append({tag: True, 'kind': 'rand', 'seeds': seeds, 'seed': ctx.seed * 1000 + 600 + i})
+        specs.append({tag: True, 'kind': 'rand', 'seeds': seeds, 'seed': ctx.seed * 1000 + 600 + i, 'split': i % 2 == 1})
     return specs
 
 
@@ -110,14 +118,24 @@ def open_full(spec, acc, wd, want_python=False):
             acc.count('decoy_compiled_first_in_the_process')
         except cppdrv.BuildFailed as e:
             acc.prereq({'stage': e.stage, 'error': 'decoy: ' + str(e)[-800:]})
+    files = None
+    if spec.get('split') and len(sch.defs) >= 2:
+        # the schema cut into an included file (a prefix of the definitions) and the file that includes it, both
+        # inputs of one prophyc run: the included definitions are reached twice (as an input and through the include)
+        k = random.Random(spec['seed']).randint(1, len(sch.defs) - 1)
+        first = set(d.name for d in sch.defs[:k])
+        files = {'schinc.prophy': sch.to_prophy(only=first)}
+        text = '#include "schinc.prophy"\n' + sch.to_prophy(only=set(d.name for d in sch.defs) - first)
+        acc.count('schema_files_split_over_an_include')
     try:
-        gen, nodes = cppdrv.prophyc_cpp(text, wd, full=True, python=want_python)
+        gen, nodes = cppdrv.prophyc_cpp(text, wd, full=True, python=want_python, files=files)
         src = os.path.join(wd, 'drv.cpp')
         with open(src, 'w') as f:
             f.write(cppdrv.full_driver_source(sch, names))
         binary = os.path.join(wd, 'drv')
         # thorough tier: a sample of the files is rebuilt at -O1 (different inlining exposes different UB to the sanitizers)
-        cppdrv.compile_cpp([src, os.path.join(gen, 'sch.ppf.cpp')], binary, [gen], extra=(['-O1'] if spec.get('O1') else []))
+        cppdrv.compile_cpp([src, os.path.join(gen, 'sch.ppf.cpp')] + ([os.path.join(gen, 'schinc.ppf.cpp')] if files else []),
+                           binary, [gen], extra=(['-O1'] if spec.get('O1') else []))
         if spec.get('O1'):
             acc.count('schema_files_compiled_at_O1')
     except cppdrv.BuildFailed as e:
@@ -132,6 +150,8 @@ def open_full(spec, acc, wd, want_python=False):
         gen = os.path.join(wd, pkg)
         open(os.path.join(gen, '__init__.py'), 'w').close()
         sys.path.insert(0, wd)
+        if files:
+            sys.path.insert(0, gen)      # the generated module imports its include by its plain name
         importlib.invalidate_caches()
         try:
             mod = importlib.import_module(pkg + '.sch')
